@@ -89,6 +89,13 @@ def gen(args) -> list:
                     d = LocalDate(d.year, d.month, cal.get_days_in_month(d.year, d.month), cal)
                 except Exception:  # noqa: BLE001
                     pass
+            if rnd.random() < 0.3:
+                # the last day of the first, second, last-but-one or last month of a year: where leap years change a month's length
+                # (the leap day of the ISO family, day 6 of Coptic month 13, day 30 of the last Hijri / Persian month, Adar)
+                yy = rnd.randint(cal.min_year + 1, cal.max_year - 1)
+                miy = cal.get_months_in_year(yy)
+                mm = rnd.choice([1, 2, miy - 1, miy, miy, rnd.randint(1, miy)])
+                d = LocalDate(yy, mm, cal.get_days_in_month(yy, mm), cal)
             op = rnd.choice(["plus_months", "plus_years"])
             cc = rnd.random()
             k = rnd.randint(-40, 40) if cc < 0.5 else rnd.randint(-3000, 3000) if cc < 0.8 else rnd.randint(-130000, 130000)
@@ -109,6 +116,36 @@ def gen(args) -> list:
             except Exception as e:  # noqa: BLE001
                 ev["exc"] = type(e).__name__
             evs.append(ev)
+        elif c < 0.415 and cal.id.startswith("Hebrew"):
+            # two-step histories from empty caches in the calendars that cache more than year starts (the Hebrew year-length cache is
+            # shared by both Hebrew calendars): touch year a, then do arithmetic in a year whose neighbour shares a's cache slot
+            from harness.props.c13 import cold
+
+            calc = cal._year_month_day_calculator
+            ka = rnd.randint(1, 8)
+            a = ka * 1024 + rnd.choice([-1, 0, 1])
+            b = a + rnd.choice([1023, 1024, 1025, -1023, -1024, -1025, 1022])
+            if not (cal.min_year <= a <= cal.max_year and cal.min_year <= b <= cal.max_year):
+                continue
+            mb = rnd.randint(1, cal.get_months_in_year(b))
+
+            def arithmetic(b=b, mb=mb):
+                out = []
+                for dd in (1, 29):
+                    st = LocalDate(b, mb, dd, cal)
+                    for k2 in (1, 2, 30, 60, -1, -30, 299):
+                        r2 = st.plus_days(k2)
+                        out += [r2.year, r2.month, r2.day]
+                    r3 = st.plus_months(1)
+                    out += [r3.year, r3.month, r3.day, cal.get_days_in_month(b, mb), cal.get_days_in_year(b) if rnd.random() < 0 else 0]
+                return out
+
+            try:
+                res = cold(calc, lambda: (LocalDate(a, 1, 1, cal).plus_days(1), arithmetic())[1])
+                pure = cold(calc, arithmetic)
+                evs.append({"op": "hist", "cal": cal.id, "after_year": a, "year": b, "month": mb, "res": res, "pure": pure})
+            except Exception as e:  # noqa: BLE001
+                evs.append({"op": "hist", "cal": cal.id, "after_year": a, "year": b, "month": mb, "res": [], "pure": [0], "exc": type(e).__name__})
         elif c < 0.47:
             # LocalDate +/- Period with several date units: applied years, months, weeks, days in that order
             d = ctor(days_since_epoch=rday(cal), calendar=cal)
